@@ -1,5 +1,6 @@
 import HdVerif.Model.Basic
 import HdVerif.Generated.T17
+import HdVerif.Generated.T17p
 /-! C17: coded concepts (`highdicom.sr.coding.CodedConcept`) next to pydicom's `Code`.
 
 What comes from /repo's current source (tie T, `Generated/T17.lean`): which attribute receives the
@@ -8,11 +9,16 @@ stores, the lookup order of the `value` property, the attribute behind every oth
 properties `__eq__` hands to `Code(...)` and in which order, which properties `__hash__`
 concatenates, and the decision tree of `from_dataset`.
 
-What is hand-written: pydicom's `Code.__eq__` / `__hash__` (not part of /repo; tie C), Python's
-dispatch of `==`, datasets as association lists, the object store used for copy-vs-alias.
+What comes from pydicom's own source (translated, not trusted; `Generated/T17p.lean`): `PCode`,
+`pydCodeEq` (`Code.__eq__` with its retired-scheme normalisation), which attributes of `other` it reads
+(`pydEqOtherReads`), `pydHashArgs`, `pydNeNegatesEq`, `pydCodeFields`; the retired-scheme table itself
+is `Generated/T17m.lean` (used by the driver).
 
-External components are parameters: `retired : String → Option String` is pydicom's
-`snomed_mapping["SRT"]`, `h : String → Int` is Python's string hash. -/
+What is hand-written: Python's dispatch of `==`, datasets as association lists, the object store used
+for copy-vs-alias.
+
+External components are parameters: `mapping s v` is `snomed_mapping[s].get(v)` (any function in the
+theorems, the regenerated table in the driver), `h : String → Int` is Python's string hash. -/
 namespace HdVerif.Coding
 open HdVerif HdVerif.Gen
 
@@ -24,13 +30,8 @@ def DS.has (d : DS) (k : String) : Bool := (DS.get d k).isSome
 /-- attribute assignment replaces an existing element -/
 def DS.set (d : DS) (k v : String) : DS := (k, v) :: d.filter (fun e => e.1 != k)
 
-/-- pydicom `Code` named tuple (any field may hold `None`; user-made codes have the first three) -/
-structure Code where
-  value : Option String
-  scheme : Option String
-  meaning : Option String
-  version : Option String
-  deriving DecidableEq, Repr
+/-- pydicom `Code` named tuple: the structure regenerated from pydicom's source -/
+abbrev Code := PCode
 
 inductive Obj
   | code (c : Code)
@@ -86,29 +87,32 @@ def thisOf (d : DS) : Except ErrKind Code :=
   | .error e => .error e
   | .ok args => codeOfArgs args
 
-/-- pydicom: a retired SRT code is replaced by its SCT successor, the meaning is dropped -/
-def mapKey (retired : String → Option String) (value scheme version : Option String) :
-    Option String × Option String × Option String :=
-  match scheme, value with
-  | some s, some v =>
-    if s = "SRT" then
-      match retired v with
-      | some w => (some w, some "SCT", version)
-      | none => (value, scheme, version)
-    else (value, scheme, version)
-  | _, _ => (value, scheme, version)
+/-- read the named attributes of `o` in order (AttributeError as soon as one is missing) -/
+def readAttrs (o : Obj) : List String → Except ErrKind (List (String × Option String))
+  | [] => .ok []
+  | n :: ns => match o.attr n with
+    | .error e => .error e
+    | .ok v => match readAttrs o ns with
+      | .error e => .error e
+      | .ok rest => .ok ((n, v) :: rest)
 
-/-- pydicom `Code.__eq__(self, other)` -/
-def codeEq (retired : String → Option String) (self : Code) (other : Obj) : Except ErrKind Bool :=
-  match other.attr "scheme_designator", other.attr "value", other.attr "scheme_version" with
-  | .ok os, .ok ov, .ok over =>
-    .ok (decide (mapKey retired self.value self.scheme self.version = mapKey retired ov os over))
-  | .error e, _, _ => .error e
-  | _, .error e, _ => .error e
-  | _, _, .error e => .error e
+/-- a value that was read, or `None` for an attribute `Code.__eq__` never looks at -/
+def readField (reads : List (String × Option String)) (name : String) : Option String :=
+  match List.lookup name reads with
+  | some v => v
+  | none => none
+
+/-- pydicom `Code.__eq__(self, other)`: the attributes of `other` it reads (`pydEqOtherReads`), then the
+translated comparison `pydCodeEq` -/
+def codeEq (mapping : String → String → Option String) (self : Code) (other : Obj) : Except ErrKind Bool :=
+  match readAttrs other pydEqOtherReads with
+  | .error e => .error e
+  | .ok reads =>
+    .ok (pydCodeEq mapping self
+      ⟨readField reads "value", readField reads "scheme_designator", readField reads "meaning", readField reads "scheme_version"⟩)
 
 /-- Python `a == b` for two code-like objects: `type(a).__eq__(a, b)` -/
-def objEq (retired : String → Option String) (a b : Obj) : Except ErrKind Bool :=
+def objEq (retired : String → String → Option String) (a b : Obj) : Except ErrKind Bool :=
   match a with
   | .code c => codeEq retired c b
   | .concept d =>
@@ -116,11 +120,15 @@ def objEq (retired : String → Option String) (a b : Obj) : Except ErrKind Bool
     | .error e => .error e
     | .ok this => codeEq retired this b
 
-/-- Python `a != b` (`Code.__ne__` and `CodedConcept.__ne__` both negate `==`) -/
-def objNe (retired : String → Option String) (a b : Obj) : Except ErrKind Bool :=
+/-- Python `a != b`: `Code.__ne__` / `CodedConcept.__ne__` of the left operand (both negate `==`) -/
+def objNe (retired : String → String → Option String) (a b : Obj) : Except ErrKind Bool :=
   match objEq retired a b with
   | .error e => .error e
-  | .ok r => .ok (if neNegatesEq then !r else r)
+  | .ok r =>
+    let negates := match a with
+      | .code _ => pydNeNegatesEq
+      | .concept _ => neNegatesEq
+    .ok (if negates then !r else r)
 
 /-- string concatenation of values that must all be present (`None + str` is a TypeError) -/
 def concatAll : List (Option String) → Except ErrKind String
@@ -133,7 +141,9 @@ def concatAll : List (Option String) → Except ErrKind String
 /-- the string handed to `hash(...)` -/
 def hashInput (o : Obj) : Except ErrKind String :=
   match o with
-  | .code c => concatAll [c.scheme, c.value]
+  | .code c => match mapE (Obj.attr (.code c)) pydHashArgs with
+    | .error e => .error e
+    | .ok parts => concatAll parts
   | .concept d => match mapE (prop d) hashArgs with
     | .error e => .error e
     | .ok parts => concatAll parts
@@ -145,7 +155,7 @@ def hashOf (h : String → Int) (o : Obj) : Except ErrKind Int :=
   | .ok s => .ok (h s)
 
 /-- `len({a, b})`: the second element is dropped iff it hashes like the first and compares equal -/
-def setLen2 (h : String → Int) (retired : String → Option String) (a b : Obj) : Except ErrKind Nat :=
+def setLen2 (h : String → Int) (retired : String → String → Option String) (a b : Obj) : Except ErrKind Nat :=
   match hashOf h a, hashOf h b with
   | .ok ha, .ok hb =>
     if ha = hb then
@@ -199,16 +209,26 @@ def mkConcept (value scheme meaning : String) (version : Option String) : Except
       | .error e => .error e
       | .ok d => .ok (applyOptional arg ctorOptionalAssigns d)
 
+/-- `cls(*code)`: the `i`-th field of the named tuple goes to the `i`-th constructor parameter;
+TypeError when the constructor has a parameter the tuple does not fill -/
+def unpackedArg (c : Code) (param : String) : Except ErrKind (Option String) :=
+  match List.lookup param (ctorParams.zip pydCodeFields) with
+  | some field => Obj.attr (.code c) field
+  | none => .error .type
+
 /-- `CodedConcept.from_code`: an existing concept is returned as is -/
 def fromCode (o : Obj) : Except ErrKind Obj :=
   match o with
   | .concept d => if fromCodeReturnsSame then .ok (.concept d) else .error .other
   | .code c =>
-    match c.value, c.scheme, c.meaning with
-    | some v, some s, some m => match mkConcept v s m c.version with
+    match unpackedArg c "value", unpackedArg c "scheme_designator", unpackedArg c "meaning", unpackedArg c "scheme_version" with
+    | .ok (some v), .ok (some s), .ok (some m), .ok ver => match mkConcept v s m ver with
       | .error e => .error e
       | .ok d => .ok (.concept d)
-    | _, _, _ => .error .type
+    | _, _, _, _ => .error .type
+
+/-- `del dataset.<keyword>` -/
+def DS.del (d : DS) (k : String) : DS := d.filter (fun e => e.1 != k)
 
 /-! ### object store: `from_dataset(dataset, copy)` -/
 
